@@ -91,9 +91,19 @@ class G:
             self._writable = False
 
     def block(self, scope, depth, in_func=False, loopvar=None):
+        outer_wr = self.writable(scope)
         scope = scope + [{}]
         n = self.r.randint(1, 4)
         src, ast = [], []
+        if outer_wr and self.r.random() < 0.3:
+            # use an outer variable, then shadow it inside this block: the next pass of a loop (and the code after
+            # the block) must see the outer one again
+            x = self.r.choice(outer_wr)
+            kk = self.r.randint(1, 3)
+            t, a = self.arith(self.visible(scope, "num"))
+            src += ["%s += %d" % (x, kk), "let %s = %s" % (x, t), "echo $%s" % x]
+            ast += [["op", x, "+", ["int", kk]], ["let", x, ["arith", a]], ["echo", [["var", x]]]]
+            scope[-1][x] = "num"
         for _ in range(n):
             if self.budget <= 0:
                 break
